@@ -573,6 +573,9 @@ func nativeReplayArch(replayPath, pkg, arch string) (string, string) {
 	for _, n := range vNotes {
 		fmt.Println("VERIF-NOTE:", n)
 	}
+	if vReplayPos != len(vReplay.Inputs) {
+		fmt.Printf("VERIF-REPLAY: consumed %d of %d inputs (path diverged)\n", vReplayPos, len(vReplay.Inputs))
+	}
 	for _, f := range vFailures {
 		fmt.Println("VERIF-REPLAY: failed", f)
 	}
@@ -612,6 +615,10 @@ func nativeReplayArch(replayPath, pkg, arch string) (string, string) {
 	switch {
 	case strings.Contains(out, "VERIF-REPLAY: assume-failed"):
 		return "diverged(assume)", out
+	case strings.Contains(out, "path diverged"):
+		// the input file does not fit the harness (stale witness or an engine /
+		// native disagreement): never a confirmation
+		return "diverged", out
 	case strings.Contains(out, "VERIF-REPLAY: failed "+rf.Assert), strings.Contains(out, "VERIF-REPLAY: failed"):
 		return "confirmed", out
 	case strings.Contains(out, "VERIF-REPLAY: passed"):
